@@ -457,6 +457,8 @@ def values_argument(clsname, step, m):
     import numpy
     vals = dec(step["vals"])
     arr = numpy.array(vals, dtype="float64").reshape(len(vals), m.t)
+    if step.get("vdtype") and not step.get("wrap"):
+        arr = arr.astype(step["vdtype"])          # exactly representable by construction of the step
     taxa, grp = label_arrays(step.get("taxa"), step.get("grp"))
     if step.get("wrap"):
         C = _bv_class(clsname)
@@ -1145,6 +1147,16 @@ def gen_step(rnd, m, ops):
         k = rnd.choice([0, 1, 1, 1, 2, 3])
         vals = gen_values(rnd, k, t, m)
         step = dict(op=op, vals=enc(vals), via=via)
+        if k and rnd.random() < 0.2:
+            # a raw `values` array of another numeric dtype (integer counts, single precision): the existing taxa's values
+            # must not be cast to it
+            vd = rnd.choice(["int64", "int8", "float32"])
+            import numpy as _np
+            if all(_np.isfinite(x) for row in vals for x in row):
+                vv = [[float(_np.float32(v)) if vd == "float32" else float(max(-100, min(100, round(v)))) for v in row] for row in vals]
+                if all(_np.isfinite(x) for row in vv for x in row):
+                    step["vals"] = enc(vv)
+                    step["vdtype"] = vd
         if m.taxa is not None and rnd.random() < 0.8:
             step["taxa"] = fresh_names(k, rnd)
         if m.grp is not None:
